@@ -11,7 +11,7 @@ Decided clauses (correct rounding / shortest round-trip are delegated to std and
   R3  text -> f64 only through <f64 as FromStr> (one correctly-rounded conversion), f64 -> text for
       values only through Display
 """
-from . import kwalk, cfg, prov
+from . import kwalk, cfg, prov, cg
 from .facts import callee_name, pk
 
 EXPLANATION = (
@@ -739,6 +739,83 @@ def rule_r3(F, rep):
                         rep.violation(R, "%s|number-format" % fn.q, "a manifested number is formatted with %s instead of "
                                       "Display (shortest round-trip)" % n, fn.body.span(t["sp"]))
     rep.floor(R, n_disp, 3, "number formatting sites in manifest functions")
+    # (b) the text that is printed is the number itself: a function that prints an f64 value (or is handed one by a
+    # manifest function) never converts it to an integer on the way (saturating `as i64` / `as u64` silently changes
+    # every value beyond the integer range)
+    printers = {}
+    for fn in F.fn_list:
+        if fn.crate.name != "rsjsonnet_lang":
+            continue
+        if "::manifest::" in fn.q or "do_manifest" in fn.q:
+            printers[fn.q] = fn
+    for q, fn in list(printers.items()):
+        for bb, t in fn.body.calls():
+            f = t["f"]
+            if f["k"] == "def" and f.get("rlocal"):
+                g = F.fn_opt(callee_name(t) or "")
+                if g is not None and any("t" in x and fn.body.ty(x["t"])["s"] == "f64" for x in t["xs"]):
+                    printers.setdefault(g.q, g)
+    n_p = 0
+    for q, fn in sorted(printers.items()):
+        prints = any((callee_name(t) or "").startswith("<core::fmt::rt::Argument>::new_") for _, t in fn.body.calls())
+        if not prints:
+            continue
+        n_p += 1
+        casts = [(bb, st) for bb, si, st in fn.body.assigns() if st["rv"]["k"] == "cast" and st["rv"]["ck"] == "FloatToInt"]
+        ok = not casts
+        rep.ob(R, "%s|no-float-to-int" % q, ok, {"fn": q})
+        for bb, st in casts:
+            rep.violation(R, "%s|number-printed-through-integer" % q,
+                          "%s prints values and converts an f64 to an integer on the way: values beyond the integer range are "
+                          "saturated, so the printed text no longer denotes the number" % q, fn.body.span(st["sp"]))
+    rep.floor(R, n_p, 3, "functions that print manifested values")
+    # (c) a literal denotes the correctly rounded double of its text: the f64 stored in ir::Expr::Number comes straight
+    # from the one FromStr conversion (through unwrap/expect), with no floating-point arithmetic of our own
+    IREXPR = "rsjsonnet_lang::program::ir::Expr"
+    PARSE = ("core::str::traits::FromStr>::from_str", "<str>::parse", "core::str::<impl str>::parse")
+
+    def only_parse(fn, op, depth=0):
+        P = prov.Prov(F, fn.body)
+        org = P.origins_op(op)
+        bad = []
+        for o in org:
+            if o[0] == "call" and any(o[1].endswith(p_) or o[1] == p_ for p_ in PARSE):
+                continue
+            if o[0] == "call" and depth < 2:
+                g = F.fn_opt(o[1])
+                if g is not None and g.crate.name == "rsjsonnet_lang":
+                    # a helper: everything it returns must itself come from the conversion
+                    rets = [st for bb, si, st in g.body.assigns() if st["p"]["l"] == 0 and not st["p"]["p"]]
+                    calls0 = [t for bb, t in g.body.calls() if t["dst"]["l"] == 0 and not t["dst"]["p"]]
+                    sub_bad = []
+                    for st in rets:
+                        rv = st["rv"]
+                        if rv["k"] == "use":
+                            sub_bad += only_parse(g, rv["x"], depth + 1)
+                        else:
+                            sub_bad.append(("computed", rv["k"], rv.get("op")))
+                    for t in calls0:
+                        nme = callee_name(t) or ""
+                        if not (any(nme.endswith(p_) or nme == p_ for p_ in PARSE) or prov.is_pass_through(nme)):
+                            sub_bad.append(("call", nme))
+                        elif prov.is_pass_through(nme) and t["xs"]:
+                            sub_bad += only_parse(g, t["xs"][0], depth + 1)
+                    bad += sub_bad
+                    continue
+            bad.append(o)
+        return bad
+    n_lit = 0
+    for fn, bb, si, st in cg.who_constructs(F, IREXPR, "Number", crates=("rsjsonnet_lang",)):
+        n_lit += 1
+        bad = only_parse(fn, st["rv"]["xs"][0])
+        ok = not bad
+        rep.ob(R, "%s|literal-from-FromStr" % fn.q, ok, {"fn": fn.q, "other_origins": sorted(map(str, bad))[:4]})
+        if not ok:
+            rep.violation(R, "%s|literal-not-from-FromStr" % fn.q,
+                          "%s stores a number literal whose value does not come straight from <f64 as FromStr> (other origins: "
+                          "%s): arithmetic of our own on the way rounds twice, so the literal can denote a neighbouring double"
+                          % (fn.q, sorted(map(str, bad))[:3]), fn.body.span(st["sp"]))
+    rep.floor(R, n_lit, 1, "number literal construction sites")
     rep.trust("std: <f64 as FromStr> is correctly rounded; <f64 as Display> prints the shortest round-trip decimal")
 
 
@@ -746,4 +823,6 @@ def run(F, rep, tier):
     rule_r1(F, rep)
     rule_r2(F, rep)
     rule_r3(F, rep)
+    from . import casts
+    casts.rule(F, rep, "C06.R4")
     return EXPLANATION
